@@ -321,3 +321,91 @@ def ex_exprtables():
 
 
 EXTRACTORS["ExprTables"] = ex_exprtables
+
+
+def ex_parsefacts():
+    src = _read("glass-easel-template-compiler/src/parse/tag.rs")
+    # the two invalid-attribute-name loops
+    norm = re.sub(r"\s+", " ", src)
+    a = ("if peek == '/' || peek == '>' || Ident::is_start_char(peek) || super::is_template_whitespace(peek) { break; } ps.next();" in norm)
+    b = ("if peek == '>' || Ident::is_start_char(peek) || super::is_template_whitespace(peek) { break; } ps.next();" in norm)
+    m = re.search(r"const fn is_template_whitespace\(c: char\) -> bool \{\s*match c \{(.*?)\}\s*\}", _read("glass-easel-template-compiler/src/parse/mod.rs"), re.S)
+    if not m:
+        raise core.BrokenTie("extract:is_template_whitespace", "pattern not found")
+    ws_ok = re.sub(r"\s+", "", m.group(1)) == "''=>true,'\\x09'..='\\x0D'=>true,_=>false,"
+    return ("/-! GENERATED from /repo/glass-easel-template-compiler/src/parse/{tag,mod}.rs by checklib/extractors.py — do not edit. -/\n"
+            "namespace GE.Extracted\n"
+            "/-- both invalid-attribute-name loops stop on `is_template_whitespace` (the test `skip_whitespace` also uses) -/\n"
+            f"def attrLoopBreakOnTemplateWs : Bool := {'true' if (a and b) else 'false'}\n"
+            "/-- `is_template_whitespace` is ' ' | '\\x09'..='\\x0D' -/\n"
+            f"def templateWsIsAsciiSet : Bool := {'true' if ws_ok else 'false'}\n"
+            "end GE.Extracted\n")
+
+
+EXTRACTORS["ParseFacts"] = ex_parsefacts
+
+
+def ex_csstables():
+    """cssparser's separator table (by running it) and the string tables of the stylesheet compiler"""
+    try:
+        line = core.run_harness([core.req("css_septable")])[0]
+    except Exception as e:
+        raise core.BrokenTie("extract:css_septable", str(e))
+    rows = []
+    names = []
+    for part in line.split(";"):
+        a, _, bs = part.partition(":")
+        names.append(a)
+        rows.append((a, [b for b in bs.split(",") if b]))
+    src = _read("glass-easel-stylesheet-compiler/src/lib.rs")
+    m = re.search(r"let contain_rule_list = matches!\(\s*x\.to_ascii_lowercase\(\)\.as_str\(\),(.*?)\);", src, re.S)
+    if not m:
+        raise core.BrokenTie("extract:contain_rule_list", "pattern not found")
+    rule_list = re.findall(r'"([^"]+)"', m.group(1))
+    m2 = re.search(r'if !matches!\(xs, (.*?)\)', src)
+    import_fns = re.findall(r'"([^"]+)"', m2.group(1)) if m2 else []
+    out = ["/-! GENERATED by checklib/extractors.py (cssparser separator table obtained by running cssparser; string tables from",
+           "glass-easel-stylesheet-compiler/src/lib.rs) — do not edit. -/", "namespace GE.Extracted",
+           "inductive SerT where", "  | " + " | ".join(names), "deriving DecidableEq, Repr, Inhabited",
+           "/-- `TokenSerializationType::needs_separator_when_before` -/",
+           "def needsSepTable : List (SerT × List SerT) := ["]
+    out.append(",\n".join("  (.%s, [%s])" % (a, ", ".join("." + b for b in bs)) for a, bs in rows) + "]")
+    out.append(f"def containRuleList : List String := [{', '.join(lean_str(x) for x in rule_list)}]")
+    out.append(f"def importConditionFns : List String := [{', '.join(lean_str(x) for x in import_fns)}]")
+    out.append("end GE.Extracted\n")
+    return "\n".join(out)
+
+
+EXTRACTORS["CssTables"] = ex_csstables
+
+
+_OUTPUT_BODIES = {
+    "append_raw": '{ self.prev_ser_type = TokenSerializationType::Nothing; let output_start_pos = self.s.len(); self.s += s; self.utf16_len += str::encode_utf16(&self.s[output_start_pos..]).count() as u32; }',
+    "append_token": '{ let next_ser_type = token.serialization_type(); if self .prev_ser_type .needs_separator_when_before(next_ser_type) { write!(&mut self.s, " ").unwrap(); self.utf16_len += 1; } self.prev_ser_type = next_ser_type; let output_start_pos = self.s.len(); write_token(&token, &mut self.s); let name = src.map(|x| { let s = x.to_css_string(); self.source_map.add_name(&s) }); self.source_map.add_raw( 0, self.utf16_len, token.position.line, token.position.utf16_col, Some(self.source_id), name, ); self.utf16_len += str::encode_utf16(&self.s[output_start_pos..]).count() as u32; }',
+    "append_token_space_preserved": "{ if let Token::WhiteSpace(_) = &*token { self.prev_ser_type = token.serialization_type(); self.s.push(' '); self.utf16_len += 1; } else { self.append_token(token, src); } }",
+}
+
+
+def _fn_body(src, name):
+    i = src.index("fn " + name + "(")
+    j = src.index("{", i)
+    return re.sub(r"\s+", " ", src[j:_match_block(src, j)])
+
+
+def ex_cssoutput():
+    """the three writers of `StyleSheetOutput` still have the statement sequence the text-level model mirrors"""
+    src = _read("glass-easel-stylesheet-compiler/src/output.rs")
+    flags = []
+    for n, expect in _OUTPUT_BODIES.items():
+        try:
+            ok = _fn_body(src, n) == expect
+        except ValueError:
+            ok = False
+        flags.append((n, ok))
+    return ("/-! GENERATED from /repo/glass-easel-stylesheet-compiler/src/output.rs by checklib/extractors.py — do not edit. -/\n"
+            "namespace GE.Extracted\n" +
+            "".join(f"def outputShape_{n} : Bool := {'true' if ok else 'false'}\n" for n, ok in flags) +
+            "end GE.Extracted\n")
+
+
+EXTRACTORS["CssOutputShape"] = ex_cssoutput
